@@ -61,7 +61,10 @@ impl SegmentBlock {
                             return Ok((Some(CommittedEvents::Single(event)), Some(next_offset)));
                         }
 
-                        events.push(event);
+                        // The pending events belong to a transaction whose commit was never
+                        // written (a crash between its events and its commit): nothing is
+                        // committed at the requested offset; continue at this event
+                        return Ok((None, Some(event_offset)));
                     } else if transaction_id != pending_transaction_id {
                         // Unexpected transaction, we'll start a new pending transaction
                         events = smallvec![event];
@@ -76,6 +79,12 @@ impl SegmentBlock {
                 Some(Record::Commit(commit)) => {
                     let next_offset = commit.offset + COMMIT_SIZE as u64;
                     if commit.transaction_id == pending_transaction_id && !events.is_empty() {
+                        // Only the `event_count` events right before the commit belong to it; older
+                        // ones with the same id are leftovers of an attempt that never committed
+                        let count = commit.event_count as usize;
+                        if events.len() > count {
+                            events.drain(..events.len() - count);
+                        }
                         return Ok((
                             Some(CommittedEvents::Transaction {
                                 events: Box::new(events),
@@ -412,7 +421,9 @@ impl BucketSegmentReader {
                                 )));
                             }
 
-                            events.push(event);
+                            // The pending events belong to a transaction whose commit was never
+                            // written: nothing is committed at the requested offset; continue here
+                            polonius_return!(Ok((None, Some(offset))));
                         } else if transaction_id != pending_transaction_id {
                             // Unexpected transaction, we'll start a new pending transaction
                             events = smallvec![event];
@@ -427,6 +438,11 @@ impl BucketSegmentReader {
                     Some(Record::Commit(commit)) => {
                         let next_offset = commit.offset + COMMIT_SIZE as u64;
                         if commit.transaction_id == pending_transaction_id && !events.is_empty() {
+                            // Only the `event_count` events right before the commit belong to it
+                            let count = commit.event_count as usize;
+                            if events.len() > count {
+                                events.drain(..events.len() - count);
+                            }
                             polonius_return!(Ok((
                                 Some(CommittedEvents::Transaction {
                                     events: Box::new(events),
